@@ -5,4 +5,639 @@ import ClockBound.Model.OraclesD
 import ClockBound.Proofs.Client
 namespace ClockBound
 
+/-! ### generation protocol (C11) -/
+
+/-- the invariant of `C11.history_invariant`, as a predicate on states; it is inductive -/
+def GInv (s : GState) : Prop :=
+  s.g < 65536 ∧
+  (s.mid = true → s.g % 2 = 1) ∧
+  (s.stale = true → s.g % 2 = 1 ∧ s.mid = false) ∧
+  (s.mid = false → s.stale = false → s.finishes > 0 → s.g % 2 = 0 ∧ s.g ≠ 0) ∧
+  (s.stores > 0 → s.g ≠ 0)
+
+theorem genStart_spec (g : Nat) (h : g < 65536) :
+    genStart g < 65536 ∧ genStart g % 2 = 1 ∧ genStart g ≠ 0 := by
+  unfold genStart; split <;> omega
+
+theorem genFinish_spec (g : Nat) (_h : g < 65536) (ho : g % 2 = 1) :
+    genFinish g < 65536 ∧ genFinish g % 2 = 0 ∧ genFinish g ≠ 0 := by
+  unfold genFinish; simp only []; split <;> omega
+
+theorem GInv.step {s : GState} (h : GInv s) (e : GEv) : GInv (s.step e) := by
+  obtain ⟨h1, h2, h3, h4, h5⟩ := h
+  cases e
+  · -- start
+    cases hm : s.mid
+    · obtain ⟨a, b, c⟩ := genStart_spec s.g h1
+      simp only [GState.step, hm, Bool.false_eq_true, if_false]
+      exact ⟨a, fun _ => b, (fun hh => by cases hh), (fun hh => by cases hh), fun _ => c⟩
+    · simp only [GState.step, hm, if_true]
+      exact ⟨h1, h2, h3, h4, h5⟩
+  · -- finish
+    cases hm : s.mid
+    · simp only [GState.step, hm, Bool.false_eq_true, if_false]
+      exact ⟨h1, h2, h3, h4, h5⟩
+    · obtain ⟨a, b, c⟩ := genFinish_spec s.g h1 (h2 hm)
+      simp only [GState.step, hm, if_true]
+      exact ⟨a, (fun hh => by cases hh), (fun hh => by cases hh), fun _ _ _ => ⟨b, c⟩, fun _ => c⟩
+  · -- crash
+    cases hm : s.mid
+    · simp only [GState.step, hm, Bool.false_eq_true, if_false]
+      exact ⟨h1, h2, h3, h4, h5⟩
+    · simp only [GState.step, hm, if_true]
+      exact ⟨h1, (fun hh => by cases hh), fun _ => ⟨h2 hm, rfl⟩, (fun _ hh => by cases hh), h5⟩
+
+theorem GInv.foldl {s : GState} (h : GInv s) (evs : List GEv) : GInv (evs.foldl GState.step s) := by
+  induction evs generalizing s with
+  | nil => exact h
+  | cons e es ih => exact ih (h.step e)
+
+theorem GInv.run (g0 : Nat) (h0 : g0 < 65536) (evs : List GEv) : GInv (GState.run g0 evs) := by
+  apply GInv.foldl
+  refine ⟨h0, ?_, ?_, ?_, ?_⟩ <;> simp
+
+/-! ### derived `BEq` instances are reflexive -/
+
+theorem TimeSpec.beq_self (a : TimeSpec) : (a == a) = true := by
+  cases a; simp [BEq.beq, instBEqTimeSpec.beq]
+
+theorem Status.beq_self (a : Status) : (a == a) = true := by cases a <;> rfl
+
+theorem ChronyStatus.beq_self (a : ChronyStatus) : (a == a) = true := by cases a <;> rfl
+
+/-! ### the updater, one message at a time -/
+
+theorem fsmStep_eq (s : Status) (c : ChronyStatus) : fsmStep s c = statusOfChrony c := by
+  cases s <;> cases c <;> rfl
+
+/-- the updater state after an outcome (no overflow checks) -/
+def Updater.after (u : Updater) : PollOutcome → Updater
+  | .report b cs a =>
+    if cs = .synchronized then
+      { u with fsm := fsmStep u.fsm cs, bound := b, asOf := a, hasMeasurement := true }
+    else { u with fsm := fsmStep u.fsm cs }
+  | .silence g => { u with fsm := fsmStep u.fsm (if g then .freeRunning else .unknown) }
+
+/-- the record an updater publishes when `as_of + 1000 s` does not overflow -/
+def Updater.pub (u : Updater) : Record :=
+  { asOf := u.asOf, voidAfter := ⟨u.asOf.sec + 1000, 0⟩, bound := u.bound, drift := u.drift,
+    reserved := u.reserved, status := if u.hasMeasurement then u.fsm else .unknown }
+
+theorem Updater.record_some {u : Updater} {r : Record} (h : u.record = some r) : r = u.pub := by
+  have e : u.record = (chk (u.asOf.sec + 1000)).bind fun v =>
+      some { asOf := u.asOf, voidAfter := ⟨v, 0⟩, bound := u.bound, drift := u.drift,
+             reserved := u.reserved, status := if u.hasMeasurement then u.fsm else .unknown } := rfl
+  rw [e] at h
+  cases hc : chk (u.asOf.sec + 1000) with
+  | none => rw [hc] at h; cases h
+  | some v =>
+    rw [hc, Option.bind_some] at h
+    obtain ⟨hv, _, _⟩ := TimeSpec.chk_eq_some hc
+    subst hv
+    exact (Option.some.inj h).symm
+
+theorem Updater.record_ok {u : Updater} (h : inI64 (u.asOf.sec + 1000) = true) :
+    u.record = some u.pub := by
+  unfold Updater.record chk
+  rw [if_pos h]; rfl
+
+/-- a step that does not panic moves to `after` of the abstract outcome and publishes its record -/
+theorem Updater.step_data_eq (u : Updater) (t : Tracking) (phc : Int) (a : TimeSpec) (now : Int) :
+    u.step (.data t phc a now) = (chk (boundF t + phc)).bind fun b =>
+        (u.after (.report b (classify t now) a)).record.bind fun r =>
+          some (u.after (.report b (classify t now) a), r) := rfl
+
+theorem Updater.step_missing_eq (u : Updater) (g : Bool) :
+    u.step (.missing g) = (u.after (.silence g)).record.bind fun r =>
+          some (u.after (.silence g), r) := rfl
+
+theorem Updater.step_some {u u' : Updater} {m : Msg} {r : Record} (h : u.step m = some (u', r)) :
+    u' = u.after (abstractMsg m) ∧ r = u'.pub := by
+  cases m with
+  | data t phc a now =>
+    rw [Updater.step_data_eq] at h
+    cases hc : chk (boundF t + phc) with
+    | none => rw [hc] at h; cases h
+    | some b =>
+      rw [hc, Option.bind_some] at h
+      obtain ⟨hb, _, _⟩ := TimeSpec.chk_eq_some hc
+      subst hb
+      rw [Option.bind_eq_some_iff] at h
+      obtain ⟨r', hr', he⟩ := h
+      simp only [Option.some.injEq, Prod.mk.injEq] at he
+      obtain ⟨e1, e2⟩ := he
+      subst e2
+      have := Updater.record_some hr'
+      rw [e1] at this
+      exact ⟨e1.symm, this⟩
+  | missing g =>
+    rw [Updater.step_missing_eq] at h
+    rw [Option.bind_eq_some_iff] at h
+    obtain ⟨r', hr', he⟩ := h
+    simp only [Option.some.injEq, Prod.mk.injEq] at he
+    obtain ⟨e1, e2⟩ := he
+    subst e2
+    have := Updater.record_some hr'
+    rw [e1] at this
+    exact ⟨e1.symm, this⟩
+
+theorem Updater.step_ok {u : Updater} {m : Msg} (hm : m.ok = true)
+    (hr : inI64 ((u.after (abstractMsg m)).asOf.sec + 1000) = true) :
+    u.step m = some (u.after (abstractMsg m), (u.after (abstractMsg m)).pub) := by
+  have hrec := Updater.record_ok hr
+  cases m with
+  | data t phc a now =>
+    simp only [Msg.ok, Bool.and_eq_true] at hm
+    have hc : chk (boundF t + phc) = some (boundF t + phc) := by unfold chk; rw [if_pos hm.1]
+    have e : u.step (.data t phc a now) = (chk (boundF t + phc)).bind fun b =>
+        (u.after (.report b (classify t now) a)).record.bind fun r =>
+          some (u.after (.report b (classify t now) a), r) := rfl
+    rw [e, hc, Option.bind_some]
+    simp only [abstractMsg] at hrec ⊢
+    rw [hrec, Option.bind_some]
+  | missing g =>
+    have e : u.step (.missing g) = (u.after (.silence g)).record.bind fun r =>
+          some (u.after (.silence g), r) := rfl
+    simp only [abstractMsg] at hrec ⊢
+    rw [e, hrec, Option.bind_some]
+
+theorem Updater.after_drift (u : Updater) (o : PollOutcome) :
+    (u.after o).drift = u.drift ∧ (u.after o).reserved = u.reserved := by
+  cases o with
+  | report b cs a => simp only [Updater.after]; split <;> exact ⟨rfl, rfl⟩
+  | silence g => exact ⟨rfl, rfl⟩
+
+/-- every record of a run carries the updater's drift and a void-after 1000 s past its as-of -/
+theorem Updater.run_drift_void (u : Updater) (msgs : List Msg) :
+    ∀ r ∈ Updater.run u msgs, r.drift = u.drift ∧ r.voidAfter = ⟨r.asOf.sec + 1000, 0⟩ := by
+  induction msgs generalizing u with
+  | nil => intro r hr; cases hr
+  | cons m ms ih =>
+    intro r hr
+    unfold Updater.run at hr
+    cases hs : u.step m with
+    | none => rw [hs] at hr; cases hr
+    | some p =>
+      obtain ⟨u', r0⟩ := p
+      rw [hs] at hr
+      obtain ⟨e1, e2⟩ := Updater.step_some hs
+      have hd : u'.drift = u.drift := by rw [e1]; exact (Updater.after_drift u _).1
+      rcases List.mem_cons.mp hr with h | h
+      · subst h; rw [e2]; exact ⟨hd, rfl⟩
+      · have := ih u' r h
+        rw [hd] at this; exact this
+
+/-! ### chrony floats in binary64 (C07, C10) -/
+
+/-- a chrony float times a power of two is a double -/
+theorem rne53_chronyFloat_mul_pow (w : Nat) (k : Int) :
+    F64.rne53 (F64.chronyFloat w * (2:ℚ)^k) = F64.chronyFloat w * (2:ℚ)^k := by
+  obtain ⟨m, e, hm, _, _, hc⟩ := F64.chronyFloat_repr w
+  have : F64.chronyFloat w * (2:ℚ)^k = (m:ℚ) * (2:ℚ)^(e + k) := by
+    rw [hc, zpow_add₀ (by norm_num), mul_assoc]
+  rw [this]
+  apply F64.rne53_exact
+  calc |m| ≤ 2^24 := hm
+    _ ≤ 2^53 := by norm_num
+
+theorem chronyFloat_mul8 (w : Nat) : F64.mul (F64.chronyFloat w) 8 = F64.chronyFloat w * 8 := by
+  have := rne53_chronyFloat_mul_pow w 3
+  norm_num at this
+  exact this
+
+theorem chronyFloat_div2 (w : Nat) : F64.div (F64.chronyFloat w) 2 = F64.chronyFloat w / 2 := by
+  have := rne53_chronyFloat_mul_pow w (-1)
+  have e : F64.chronyFloat w * (2:ℚ)^(-1:ℤ) = F64.chronyFloat w / 2 := by
+    rw [zpow_neg, zpow_one, div_eq_mul_inv]
+  rw [e] at this
+  exact this
+
+/-- `as u64` is the floor, clamped -/
+theorem castU64_eq (x : ℚ) :
+    F64.castU64 x = if x.floor < 0 then 0 else if x.floor > 18446744073709551615 then 18446744073709551615 else x.floor := by
+  unfold F64.castU64 F64.trunc F64.U64_MAX
+  simp only []
+  by_cases hx : x ≥ 0
+  · rw [if_pos hx]
+    have : 0 ≤ x.floor := by rw [Rat.le_floor_iff]; exact_mod_cast hx
+    split_ifs <;> omega
+  · rw [if_neg hx]
+    have hx' : x < 0 := not_le.mp hx
+    have h1 : x.ceil ≤ 0 := by rw [Rat.ceil_le_iff]; exact_mod_cast hx'.le
+    have h2 : x.floor < 0 := by rw [Rat.floor_lt_iff]; exact_mod_cast hx'
+    split_ifs <;> omega
+
+theorem timeout_eq (t : Tracking) :
+    F64.castU64 (F64.mul (F64.chronyFloat t.intervalW) 8) = C10.thresholdSecs t := by
+  rw [chronyFloat_mul8, castU64_eq]; rfl
+
+theorem leapClass_cases (leap : Nat) :
+    (leap ≤ 2 ∧ leapClass leap = .synchronized) ∨ (leap = 3 ∧ leapClass leap = .freeRunning) ∨
+    (leap ≥ 4 ∧ leapClass leap = .unknown) := by
+  unfold leapClass
+  by_cases h1 : leap ≤ 2
+  · left; exact ⟨h1, by rw [if_pos h1]⟩
+  · by_cases h2 : leap = 3
+    · right; left; exact ⟨h2, by rw [if_neg h1, if_pos h2]⟩
+    · right; right; exact ⟨by omega, by rw [if_neg h1, if_neg h2]⟩
+
+/-! ### the bound pipeline (C07) -/
+
+theorem absR_eq_abs (x : ℚ) : absR x = |x| := by
+  unfold absR
+  split_ifs with h
+  · rw [abs_of_neg h]
+  · rw [abs_of_nonneg (not_lt.mp h)]
+
+theorem absR_neg (x : ℚ) : absR (-x) = absR x := by
+  rw [absR_eq_abs, absR_eq_abs, abs_neg]
+
+theorem absR_nonneg (x : ℚ) : 0 ≤ absR x := by
+  rw [absR_eq_abs]; exact abs_nonneg x
+
+/-- `boundF` with the sign test written as `absR` -/
+theorem boundF_def (t : Tracking) :
+    boundF t = F64.castI64 (F64.ceil (F64.mul (F64.add (F64.add (F64.div (F64.chronyFloat t.delayW) 2)
+      (F64.chronyFloat t.dispW)) (absR (F64.chronyFloat t.offW))) 1000000000)) := rfl
+
+/-- `boundF` as three roundings, a ceiling and a cast (the halving is exact) -/
+theorem boundF_eq (t : Tracking) :
+    boundF t = F64.castI64 (((F64.rne53 (F64.rne53 (F64.rne53 (F64.chronyFloat t.delayW / 2 +
+      F64.chronyFloat t.dispW) + absR (F64.chronyFloat t.offW)) * 1000000000)).ceil : Int) : ℚ) := by
+  rw [boundF_def, chronyFloat_div2]; rfl
+
+/-- three roundings of non-negative data: `((x ⊕ o) ⊗ k)` against `(x + o)·k` -/
+theorem three_roundings {x o k : ℚ} (hx : 0 ≤ x) (ho : 0 ≤ o) (hk : 0 ≤ k) :
+    let E := (x + o) * k
+    let c := F64.rne53 (F64.rne53 (F64.rne53 x + o) * k)
+    0 ≤ c ∧ E * (1 - C07.eps51) ≤ c ∧ c ≤ E * (1 + C07.eps51) := by
+  intro E c
+  obtain ⟨l1, u1⟩ := rne53_bounds_nonneg hx
+  have h1 : 0 ≤ F64.rne53 x := F64.rne53_nonneg hx
+  have hs : 0 ≤ F64.rne53 x + o := by positivity
+  obtain ⟨l2, u2⟩ := rne53_bounds_nonneg hs
+  have h2 : 0 ≤ F64.rne53 (F64.rne53 x + o) := F64.rne53_nonneg hs
+  have hp : 0 ≤ F64.rne53 (F64.rne53 x + o) * k := by positivity
+  obtain ⟨l3, u3⟩ := rne53_bounds_nonneg hp
+  have h3 : 0 ≤ c := F64.rne53_nonneg hp
+  set a := F64.rne53 x with ha
+  set b := F64.rne53 (a + o) with hb
+  set u : ℚ := 1 / 2 ^ 53 with hu
+  have hu0 : 0 ≤ 1 - u := by rw [hu]; norm_num
+  have hu1 : 0 ≤ 1 + u := by rw [hu]; norm_num
+  have hu' : 0 ≤ u := by rw [hu]; norm_num
+  have hE : 0 ≤ E := by positivity
+  have U2 : b ≤ (x + o) * ((1 + u) * (1 + u)) := by
+    calc b ≤ (a + o) * (1 + u) := u2
+      _ ≤ (x * (1 + u) + o * (1 + u)) * (1 + u) := by
+          apply mul_le_mul_of_nonneg_right _ hu1
+          have : o ≤ o * (1 + u) := by nlinarith
+          linarith
+      _ = _ := by ring
+  have U3 : c ≤ E * ((1 + u) * (1 + u) * (1 + u)) := by
+    calc c ≤ b * k * (1 + u) := u3
+      _ ≤ ((x + o) * ((1 + u) * (1 + u))) * k * (1 + u) := by
+          apply mul_le_mul_of_nonneg_right _ hu1
+          exact mul_le_mul_of_nonneg_right U2 hk
+      _ = _ := by ring
+  have L2 : (x + o) * ((1 - u) * (1 - u)) ≤ b := by
+    calc _ = (x * (1 - u) + o * (1 - u)) * (1 - u) := by ring
+      _ ≤ (a + o) * (1 - u) := by
+          apply mul_le_mul_of_nonneg_right _ hu0
+          have : o * (1 - u) ≤ o := by nlinarith
+          linarith
+      _ ≤ b := l2
+  have L3 : E * ((1 - u) * (1 - u) * (1 - u)) ≤ c := by
+    calc _ = ((x + o) * ((1 - u) * (1 - u))) * k * (1 - u) := by ring
+      _ ≤ b * k * (1 - u) := by
+          apply mul_le_mul_of_nonneg_right _ hu0
+          exact mul_le_mul_of_nonneg_right L2 hk
+      _ ≤ c := l3
+  have e1 : (1 + u) * (1 + u) * (1 + u) ≤ 1 + C07.eps51 := by
+    rw [hu]; unfold C07.eps51; norm_num
+  have e2 : 1 - C07.eps51 ≤ (1 - u) * (1 - u) * (1 - u) := by
+    rw [hu]; unfold C07.eps51; norm_num
+  refine ⟨h3, ?_, ?_⟩
+  · exact le_trans (mul_le_mul_of_nonneg_left e2 hE) L3
+  · exact le_trans U3 (mul_le_mul_of_nonneg_left e1 hE)
+
+theorem applicable_spec {t : Tracking} {phc : Int} (h : C07.applicable t phc = true) :
+    0 ≤ F64.chronyFloat t.dispW ∧ 0 ≤ F64.chronyFloat t.delayW ∧
+    C07.exactNs t < 4611686018427387904 ∧ 0 ≤ phc ∧ phc < 4611686018427387904 := by
+  simp only [C07.applicable, Bool.and_eq_true, decide_eq_true_eq] at h
+  obtain ⟨⟨⟨h1, h2⟩, h3⟩, h4, h5⟩ := h
+  exact ⟨h1, h2, h3, h4, h5⟩
+
+theorem castI64_intCast {n : Int} (h0 : 0 ≤ n) (h1 : n < 9223372036854775808) :
+    F64.castI64 (n : ℚ) = n := by
+  rw [F64.castI64_eq_floor (by exact_mod_cast h0) (by exact_mod_cast h1)]
+  exact Rat.floor_intCast n
+
+/-- C07 for the chrony part of the bound -/
+theorem boundF_bounds (t : Tracking) (hs : 0 ≤ F64.chronyFloat t.dispW)
+    (hd : 0 ≤ F64.chronyFloat t.delayW) (hE : C07.exactNs t < 4611686018427387904) :
+    0 ≤ boundF t ∧ C07.exactNs t * (1 - C07.eps51) ≤ (boundF t : ℚ) ∧
+    (boundF t : ℚ) < C07.exactNs t * (1 + C07.eps51) + 1 := by
+  have hx : 0 ≤ F64.chronyFloat t.delayW / 2 + F64.chronyFloat t.dispW := by positivity
+  obtain ⟨c0, cl, cu⟩ := three_roundings hx (absR_nonneg (F64.chronyFloat t.offW))
+    (by norm_num : (0:ℚ) ≤ 1000000000)
+  have eE : (F64.chronyFloat t.delayW / 2 + F64.chronyFloat t.dispW +
+      absR (F64.chronyFloat t.offW)) * 1000000000 = C07.exactNs t := by
+    unfold C07.exactNs; ring
+  simp only [eE] at cl cu
+  rw [boundF_eq]
+  set c : ℚ := F64.rne53 (F64.rne53 (F64.rne53 (F64.chronyFloat t.delayW / 2 +
+      F64.chronyFloat t.dispW) + absR (F64.chronyFloat t.offW)) * 1000000000) with hc
+  have hceil1 : c ≤ (c.ceil : ℚ) := Rat.le_ceil
+  have hceil2 : (c.ceil : ℚ) < c + 1 := Rat.ceil_lt
+  have hn0 : 0 ≤ c.ceil := by
+    have : (0:ℚ) ≤ (c.ceil : ℚ) := le_trans c0 hceil1
+    exact_mod_cast this
+  have hlt : (c.ceil : ℚ) < 9223372036854775808 := by
+    have e1 : C07.exactNs t * (1 + C07.eps51) ≤ 4611686018427387904 * (1 + C07.eps51) :=
+      mul_le_mul_of_nonneg_right hE.le (by unfold C07.eps51; norm_num)
+    have e2 : (4611686018427387904 : ℚ) * (1 + C07.eps51) + 1 < 9223372036854775808 := by
+      unfold C07.eps51; norm_num
+    linarith
+  have hn1 : c.ceil < 9223372036854775808 := by exact_mod_cast hlt
+  rw [castI64_intCast hn0 hn1]
+  refine ⟨hn0, ?_, ?_⟩ <;> linarith
+
+/-! ### histories of poll outcomes (C08, C09) -/
+
+/-- bound and as-of carried by a synchronised report -/
+def syncOf : PollOutcome → Option (Int × TimeSpec)
+  | .report b .synchronized a => some (b, a)
+  | _ => none
+
+theorem lastSync_cons (o : PollOutcome) (rest : List PollOutcome) :
+    lastSync (o :: rest) = match lastSync rest with
+      | some x => some x
+      | none => syncOf o := by
+  cases o with
+  | report b cs a => cases cs <;> rfl
+  | silence g => rfl
+
+/-- the LAST synchronised report wins -/
+theorem lastSync_concat (h : List PollOutcome) (o : PollOutcome) :
+    lastSync (h ++ [o]) = match syncOf o with
+      | some x => some x
+      | none => lastSync h := by
+  induction h with
+  | nil =>
+    rw [List.nil_append, lastSync_cons]
+    cases syncOf o <;> rfl
+  | cons x h ih =>
+    rw [List.cons_append, lastSync_cons, ih]
+    cases syncOf o with
+    | some y => rfl
+    | none => rw [lastSync_cons]
+
+theorem lastSync_eq_none_iff (l : List PollOutcome) :
+    lastSync l = none ↔ ∀ o ∈ l, syncOf o = none := by
+  induction l with
+  | nil => simp [lastSync]
+  | cons x l ih =>
+    rw [lastSync_cons, List.forall_mem_cons, ← ih]
+    cases lastSync l with
+    | some y => simp
+    | none => simp
+
+theorem Updater.after_fields (u : Updater) (o : PollOutcome) :
+    (u.after o).fsm = statusOfChrony o.cls ∧ (u.after o).drift = u.drift ∧
+    (u.after o).reserved = u.reserved ∧
+    (∀ b a, syncOf o = some (b, a) →
+      (u.after o).bound = b ∧ (u.after o).asOf = a ∧ (u.after o).hasMeasurement = true) ∧
+    (syncOf o = none →
+      (u.after o).bound = u.bound ∧ (u.after o).asOf = u.asOf ∧
+      (u.after o).hasMeasurement = u.hasMeasurement) := by
+  cases o with
+  | report b cs a =>
+    cases cs <;>
+      simp [Updater.after, syncOf, fsmStep_eq, PollOutcome.cls]
+  | silence g =>
+    simp [Updater.after, syncOf, fsmStep_eq, PollOutcome.cls]
+
+theorem ok_sync {m : Msg} (hm : m.ok = true) {b : Int} {a : TimeSpec}
+    (hs : syncOf (abstractMsg m) = some (b, a)) : inI64 (a.sec + 1000) = true := by
+  cases m with
+  | data t phc a' now =>
+    simp only [Msg.ok, Bool.and_eq_true] at hm
+    simp only [abstractMsg] at hs
+    generalize classify t now = cs at hs
+    cases cs <;> simp only [syncOf, Option.some.injEq, Prod.mk.injEq, reduceCtorEq] at hs
+    obtain ⟨_, rfl⟩ := hs
+    exact hm.2
+  | missing g => simp [abstractMsg, syncOf] at hs
+
+/-! ### C09: no trust without a measurement -/
+
+/-- what the updater remembers about the outcomes `h` it has processed -/
+def UInv9 (u : Updater) (h : List PollOutcome) : Prop :=
+  u.hasMeasurement = (lastSync h).isSome ∧
+  ∀ b a, lastSync h = some (b, a) → u.bound = b ∧ u.asOf = a
+
+theorem UInv9.new (drift : Nat) : UInv9 (Updater.new drift) [] := by
+  refine ⟨rfl, ?_⟩
+  intro b a hh; cases hh
+
+theorem UInv9.after {u : Updater} {h : List PollOutcome} (inv : UInv9 u h) (o : PollOutcome) :
+    UInv9 (u.after o) (h ++ [o]) := by
+  obtain ⟨_, _, _, hsome, hnone⟩ := Updater.after_fields u o
+  obtain ⟨i1, i2⟩ := inv
+  unfold UInv9
+  rw [lastSync_concat]
+  cases hs : syncOf o with
+  | some x =>
+    obtain ⟨b, a⟩ := x
+    obtain ⟨e1, e2, e3⟩ := hsome b a hs
+    refine ⟨e3, ?_⟩
+    intro b' a' hh
+    simp only [Option.some.injEq, Prod.mk.injEq] at hh
+    obtain ⟨rfl, rfl⟩ := hh
+    exact ⟨e1, e2⟩
+  | none =>
+    obtain ⟨e1, e2, e3⟩ := hnone hs
+    refine ⟨by rw [e3]; exact i1, ?_⟩
+    intro b a hh
+    rw [e1, e2]; exact i2 b a hh
+
+theorem UInv9.holdsAt {u : Updater} {h : List PollOutcome} (inv : UInv9 u h) :
+    C09.HoldsAt h u.pub = true := by
+  obtain ⟨i1, i2⟩ := inv
+  unfold C09.HoldsAt
+  cases hs : lastSync h with
+  | none =>
+    rw [hs] at i1
+    simp only [Updater.pub, i1, Option.isSome_none, Bool.false_eq_true, if_false]
+    rfl
+  | some x =>
+    obtain ⟨b, a⟩ := x
+    obtain ⟨e1, e2⟩ := i2 b a hs
+    simp only [Updater.pub, e1, e2, Bool.or_eq_true, Bool.and_eq_true]
+    right
+    exact ⟨by simp, TimeSpec.beq_self a⟩
+
+theorem run_C09 (u : Updater) (h : List PollOutcome) (msgs : List Msg) (inv : UInv9 u h) :
+    ∀ k r, (Updater.run u msgs)[k]? = some r →
+      C09.HoldsAt (h ++ (msgs.map abstractMsg).take (k + 1)) r = true := by
+  induction msgs generalizing u h with
+  | nil => intro k r hr; simp [Updater.run] at hr
+  | cons m ms ih =>
+    intro k r hr
+    unfold Updater.run at hr
+    cases hs : u.step m with
+    | none => rw [hs] at hr; simp at hr
+    | some p =>
+      obtain ⟨u', r0⟩ := p
+      rw [hs] at hr
+      obtain ⟨e1, e2⟩ := Updater.step_some hs
+      have inv' : UInv9 u' (h ++ [abstractMsg m]) := by rw [e1]; exact inv.after _
+      cases k with
+      | zero =>
+        simp only [List.getElem?_cons_zero, Option.some.injEq] at hr
+        subst hr
+        rw [e2]
+        simpa using inv'.holdsAt
+      | succ k =>
+        simp only [List.getElem?_cons_succ] at hr
+        have := ih u' (h ++ [abstractMsg m]) inv' k r hr
+        simpa [List.take_succ_cons] using this
+
+theorem C09_holds (drift : Nat) (msgs : List Msg) :
+    C09.Holds (msgs.map abstractMsg) (Updater.run (Updater.new drift) msgs) = true := by
+  unfold C09.Holds
+  rw [List.all_eq_true]
+  intro k _
+  cases hr : (Updater.run (Updater.new drift) msgs)[k]? with
+  | none => rfl
+  | some r =>
+    have := run_C09 (Updater.new drift) [] msgs (UInv9.new drift) k r hr
+    simpa using this
+
+theorem run_unknown (u : Updater) (msgs : List Msg) (hu : u.hasMeasurement = false)
+    (hn : ∀ m ∈ msgs, syncOf (abstractMsg m) = none) :
+    ∀ r ∈ Updater.run u msgs, r.status = .unknown := by
+  induction msgs generalizing u with
+  | nil => intro r hr; cases hr
+  | cons m ms ih =>
+    intro r hr
+    unfold Updater.run at hr
+    cases hs : u.step m with
+    | none => rw [hs] at hr; cases hr
+    | some p =>
+      obtain ⟨u', r0⟩ := p
+      rw [hs] at hr
+      obtain ⟨e1, e2⟩ := Updater.step_some hs
+      obtain ⟨_, _, _, _, hnone⟩ := Updater.after_fields u (abstractMsg m)
+      have hm' : u'.hasMeasurement = false := by
+        rw [e1, (hnone (hn m List.mem_cons_self)).2.2]; exact hu
+      rcases List.mem_cons.mp hr with h | h
+      · subst h; rw [e2]; simp [Updater.pub, hm']
+      · exact ih u' hm' (fun m' hm => hn m' (List.mem_cons_of_mem _ hm)) r h
+
+/-- the status of an `ok` outcome is the one `clientStatus` computes -/
+theorem computeBoundAt_ok_status {r : Record} {real mono e l : TimeSpec} {st : Status}
+    (h : computeBoundAt r real mono = .ok e l st) : clientStatus r mono = some st := by
+  unfold computeBoundAt at h
+  split at h
+  · cases h
+  · split at h
+    · cases h
+    · next st' hst =>
+      rw [hst]
+      split at h
+      · cases h
+      · simp only [] at h
+        split at h
+        · cases h
+        · cases h
+        · repeat' split at h
+          all_goals first | (cases h; rfl) | cases h
+
+/-! ### C08: the published record is `spec` of the history -/
+
+def UInv (drift : Nat) (u : Updater) (h : List PollOutcome) : Prop :=
+  u.drift = drift ∧ u.reserved = 0 ∧ u.hasMeasurement = (lastSync h).isSome ∧
+  (u.bound, u.asOf) = (lastSync h).getD (0, ⟨0, 0⟩) ∧
+  u.fsm = statusOfChrony ((h.getLast?.map PollOutcome.cls).getD .unknown) ∧
+  inI64 (u.asOf.sec + 1000) = true
+
+theorem UInv.new (drift : Nat) : UInv drift (Updater.new drift) [] :=
+  ⟨rfl, rfl, rfl, rfl, rfl, by show inI64 ((0:Int) + 1000) = true; decide⟩
+
+theorem UInv.pub {drift : Nat} {u : Updater} {h : List PollOutcome} (inv : UInv drift u h) :
+    u.pub = C08.spec drift h := by
+  obtain ⟨i1, i2, i3, i4, i5, _⟩ := inv
+  unfold C08.spec Updater.pub
+  simp only []
+  rw [← i4, ← i3, ← i5, i1, i2]
+
+theorem UInv.after {drift : Nat} {u : Updater} {h : List PollOutcome} (inv : UInv drift u h)
+    {m : Msg} (hm : m.ok = true) : UInv drift (u.after (abstractMsg m)) (h ++ [abstractMsg m]) := by
+  obtain ⟨f1, f2, f3, hsome, hnone⟩ := Updater.after_fields u (abstractMsg m)
+  obtain ⟨i1, i2, i3, i4, i5, i6⟩ := inv
+  unfold UInv
+  rw [lastSync_concat, List.getLast?_concat]
+  refine ⟨by rw [f2, i1], by rw [f3, i2], ?_, ?_, by rw [f1]; rfl, ?_⟩
+  · cases hs : syncOf (abstractMsg m) with
+    | some x =>
+      obtain ⟨b, a⟩ := x
+      rw [(hsome b a hs).2.2]; rfl
+    | none => rw [(hnone hs).2.2]; exact i3
+  · cases hs : syncOf (abstractMsg m) with
+    | some x =>
+      obtain ⟨b, a⟩ := x
+      rw [(hsome b a hs).1, (hsome b a hs).2.1]; rfl
+    | none => rw [(hnone hs).1, (hnone hs).2.1]; exact i4
+  · cases hs : syncOf (abstractMsg m) with
+    | some x =>
+      obtain ⟨b, a⟩ := x
+      rw [(hsome b a hs).2.1]; exact ok_sync hm hs
+    | none => rw [(hnone hs).2.1]; exact i6
+
+theorem run_C08 (drift : Nat) (u : Updater) (h : List PollOutcome) (msgs : List Msg)
+    (inv : UInv drift u h) (hok : ∀ m ∈ msgs, m.ok = true) :
+    Updater.run u msgs = (List.range msgs.length).map
+      (fun k => C08.spec drift (h ++ (msgs.map abstractMsg).take (k + 1))) := by
+  induction msgs generalizing u h with
+  | nil => rfl
+  | cons m ms ih =>
+    have hm : m.ok = true := hok m List.mem_cons_self
+    have inv' := inv.after hm
+    have hs := Updater.step_ok hm inv'.2.2.2.2.2
+    unfold Updater.run
+    rw [hs]
+    simp only []
+    rw [ih _ _ inv' (fun m' hm' => hok m' (List.mem_cons_of_mem _ hm')), inv'.pub]
+    rw [List.length_cons, List.range_succ_eq_map, List.map_cons, List.map_map]
+    congr 1
+    · apply List.map_congr_left
+      intro k _
+      simp [List.take_succ_cons]
+
+theorem C08.specs_eq_run (drift : Nat) (msgs : List Msg) (hok : ∀ m ∈ msgs, m.ok = true) :
+    Updater.run (Updater.new drift) msgs = C08.specs drift (msgs.map abstractMsg) := by
+  rw [run_C08 drift _ [] msgs (UInv.new drift) hok]
+  unfold C08.specs
+  simp
+
+theorem C08.agrees_self (seen : Bool) (r : Record) : C08.agrees seen r r = true := by
+  unfold C08.agrees
+  simp [TimeSpec.beq_self, Status.beq_self]
+
+theorem C08.holds_specs (drift : Nat) (h : List PollOutcome) :
+    C08.Holds drift h (C08.specs drift h) = true := by
+  unfold C08.Holds C08.specs
+  rw [Bool.and_eq_true]
+  refine ⟨by simp, ?_⟩
+  rw [List.all_eq_true]
+  intro k hk
+  rw [List.mem_range] at hk
+  have : ((List.range h.length).map (fun k => C08.spec drift (h.take (k + 1))))[k]? =
+      some (C08.spec drift (h.take (k + 1))) := by
+    rw [List.getElem?_map, List.getElem?_range hk]; rfl
+  rw [this]
+  exact C08.agrees_self _ _
+
 end ClockBound
